@@ -88,6 +88,8 @@ def render(e, env, budget=3):
     if k == "MethodCall":
         if e["method"] in A.TRANSPARENT_METHODS and not e["args"]:
             return render(e["recv"], env, budget)
+        if e["method"] in ("filter", "skip_while", "take_while", "inspect", "peekable", "by_ref") and all(a["k"] == "Closure" for a in e["args"]):
+            return render(e["recv"], env, budget)
         args = ", ".join("<closure>" if a["k"] == "Closure" else render(a, env, budget) for a in e["args"])
         return f"{render(e['recv'], env, budget)}.{e['method']}({args})"
     if k == "Call":
@@ -140,6 +142,37 @@ def render_def(df, budget):
     return "?"
 
 
+PAIRS = ((".is_some()", ".is_none()"), (".is_ok()", ".is_err()"))
+
+
+def neg(t):
+    """negation of a rendered condition, in a normal form (so that `if c { continue }` and `.filter(|x| !c)` give one key)"""
+    t = t.strip()
+    if t.startswith("!"):
+        inner = t[1:].strip()
+        return inner
+    for a, b in PAIRS:
+        if t.endswith(a):
+            return t[: -len(a)] + b
+        if t.endswith(b):
+            return t[: -len(b)] + a
+    m = re.fullmatch(r"\((.*) (==|!=) (.*)\)", t)
+    if m and m.group(1).count("(") == m.group(1).count(")") and m.group(3).count("(") == m.group(3).count(")"):
+        return f"({m.group(1)} {'!=' if m.group(2) == '==' else '=='} {m.group(3)})"
+    return "!" + t
+
+
+def nnf(t):
+    t = t.strip()
+    while t.startswith("!!"):
+        t = t[2:]
+    if t.startswith("!"):
+        n = neg(t[1:])
+        if not n.startswith("!"):
+            return n
+    return t
+
+
 def cond_key(repo, fn, envs, cond):
     """structural text of a condition expression"""
     if cond is None:
@@ -181,8 +214,16 @@ def local_tags(repo, fn):
 
 
 def exemptions(repo, fn):
-    """[(kind, key text, line)]"""
-    return list(_exemptions(repo, fn))
+    """[(kind, key text, line)] -- `if c { continue }` at the top level of a loop and `.filter(|x| p)` on its iterable are the same
+    exemption (skip the element when c / when not p): both become kind `skip` with the skip condition in normal form"""
+    out = []
+    for kind, key, line in _exemptions(repo, fn):
+        if kind == "filter":
+            kind, key = "skip", nnf(neg(key))
+        elif kind == "continue^0" and " & " not in key and not key.startswith("unless") and not key.startswith("arm "):
+            kind, key = "skip", nnf(key)
+        out.append((kind, key, line))
+    return out
 
 
 def _exemptions(repo, fn):
